@@ -292,6 +292,89 @@ def cli_reject_batch(acc, batch):
                               msg=f"dag={dag} fresh={fresh}: sbatch #{k} ({rejected}) rejected, run submitted {got}: {problems[:2]}")
 
 
+def _subs_view(world):
+    from mc import simsched
+
+    subs = simsched.Sim(world.sim).journal_submits()
+    idname = {e["id"]: e["name"] for e in subs}
+    out = []
+    for e in subs:
+        ids = [i for _t, g in (e["deps"] or {"groups": [[]]})["groups"][0] for i in g] if e["deps"] else []
+        out.append((e["name"], sorted(idname.get(i, "?" + i) for i in ids)))
+    return out
+
+
+PREVIEWS = ([["run", "-d"]], [["status"]], [["run", "-d"], ["status", "-f", "summary"]], [["run", "--dry-run", "A"], ["run", "-d"]])
+
+
+def cli_preview_batch(acc, batch):
+    """Histories: a project (fresh or empty, spec hashing on or off) + one disturbance (a script edited, a source touched, an output deleted)
+    + a prefix of previews (`run --dry-run`, `status`) + the real `gwf run [sel]`.  Oracle: the real run submits exactly what it submits
+    without the previews (same targets, same order class, same prerequisites), and with hashing on an edited script alone makes exactly
+    that target and everything downstream of it run."""
+    from mc import cliworld as CW
+    from mc.ref import graph as G
+
+    for wfname, hashing, fresh, setup, sel in batch:
+        base = CW.build(wfname, "slurm", [tuple(a) for a in setup], hashing=hashing, fresh=fresh)
+        base.sim["journal"] = []
+        ref_w, ref_r = CW.apply_action(base, ("gwf", ["run"] + list(sel)))
+        ref = _subs_view(ref_w)
+        tl = [(t.name, set(t.flat("inputs")), set(t.flat("outputs"))) for t in base.wf.targets]
+        dependents = G.relations(tl)["dependents"]
+        for pv in ((),) + tuple(PREVIEWS):
+            w = base
+            problems = []
+            for cmd in pv:
+                w, r = CW.apply_action(w, ("gwf", list(cmd)))
+                if r.exit_code != 0 or r.crashed():
+                    problems.append(f"preview {cmd} failed: {r.exc or r.err_summary()}")
+            pre = _subs_view(w)
+            if pre:
+                problems.append(f"previews submitted {pre}")
+            w.sim["journal"] = []
+            w, r = CW.apply_action(w, ("gwf", ["run"] + list(sel)))
+            got = _subs_view(w)
+            case = dict(kind="cli-preview", wf=wfname, hashing=hashing, fresh=fresh, setup=[list(a) for a in setup], sel=list(sel), previews=[list(c) for c in pv])
+            if r.crashed() or r.exit_code != ref_r.exit_code:
+                problems.append(f"run after previews: exit {r.exit_code} {r.exc}, without previews exit {ref_r.exit_code}")
+            if sorted(got) != sorted(ref):
+                problems.append(f"after previews {[list(c) for c in pv]} the run submitted {got}, without them {ref}")
+            if not pv and hashing and fresh and len(setup) == 1 and setup[0][0] == "editspec" and not sel:
+                x = setup[0][1]
+                want, todo = {x}, [x]
+                while todo:
+                    for d in dependents.get(todo.pop(), ()):
+                        if d not in want:
+                            want.add(d)
+                            todo.append(d)
+                if {g[0] for g in got} != want:
+                    problems.append(f"script of {x} edited: run submitted {sorted(g[0] for g in got)}, expected {sorted(want)}")
+            acc.case(key=json.dumps(case, sort_keys=True), outcome=f"preview n_submit={len(got)}", sample=case, nontrivial=bool(got))
+            acc.extra["cli_invocations"] += 1 + len(pv)
+            if problems:
+                acc.violation(sig=dict(kind="cli-preview", what=problems[0].split(" ")[0] + " " + problems[0].split(" ")[1]), case=case, observed=problems,
+                              msg=f"{wfname} hashing={hashing} fresh={fresh} setup={setup} sel={sel}: {problems[:2]}")
+
+
+def preview_items(quick):
+    from mc import cliworld as CW
+
+    items = []
+    for wfname in (("chain", "shortcut") if quick else ("chain", "fork", "diamond", "shortcut", "topdown")):
+        names = [t.name for t in CW.WORKFLOWS[wfname]().targets]
+        outs = sorted(o for t in CW.WORKFLOWS[wfname]().targets for o in t.flat("outputs"))
+        for hashing in (False, True):
+            for fresh in (False, True):
+                setups = [()]
+                if fresh:
+                    setups += [(("editspec", n),) for n in names] + [(("modify", "src"),)] + [(("delete", o),) for o in (outs if not quick else outs[:2])]
+                for setup in setups:
+                    for sel in ((), (names[-1],)) if not quick else ((),):
+                        items.append((wfname, hashing, fresh, setup, sel))
+    return items
+
+
 def run(ctx):
     import mc.checks.c01 as c01
     import mc.checks.c02 as me
@@ -306,13 +389,14 @@ def run(ctx):
     ctx.pmap(me, "cli_reject_batch", [(dag, fresh) for dag in dags for fresh in (("missing",) * 3, ("newer", "older", "missing"), ("older", "newer", "missing"))], chunk=4)
     ctx.pmap(me, "cli_batch", [(dag, fresh, sel) for dag in dags for fresh in (("missing",) * 3, ("newer", "older", "missing"), ("newer", "newer", "newer"))
                                for sel in selections(3, False)], chunk=16)
+    ctx.pmap(me, "cli_preview_batch", preview_items(quick), chunk=2)
     ctx.pmap(me, "wf_batch", c01.wf_items(2, 3), ranks=2 if quick else 3, sels=(None, ["T1"]) if quick else (None, ["T0"], ["T1"]))
     ctx.rule = ("case = (labelled DAG, per-target freshness, backend-state vector, selection) or (2-target/3-file workflow, file state, "
                 "backend vector, selection); non-trivial = at least one submission happens")
     ctx.bound = dict(dags_n3=len(dags), backend_states=6, fresh=3, selections=len(selections(3, quick)), dags_n4=None if quick else 543,
                      wf="n=2,m=3,ranks=%d" % (2 if quick else 3))
     ctx.assumptions = ["scheduler answers are presented through TrackingBackend's ops interface (recording ops issuing fresh ids)",
-                       "hashing off here (C01/C18 cover the hash dimension)"]
+                       "hashing off in the DAG families (C01/C18 cover the hash dimension); the preview family runs with hashing on and off"]
 
 
 def dag4_batch(acc, batch):
@@ -358,6 +442,9 @@ def replay(case):
     if c["kind"] == "cli":
         cli_batch(acc, [(tuple(tuple(x) for x in c["dag"]), tuple(c["fresh"]), c["sel"])])
         return acc.violations
+    if c["kind"] == "cli-preview":
+        cli_preview_batch(acc, [(c["wf"], c["hashing"], c["fresh"], tuple(tuple(a) for a in c["setup"]), tuple(c["sel"]))])
+        return [v for v in acc.violations if v["case"]["previews"] == c["previews"]]
     if c["kind"] == "cli-reject":
         cli_reject_batch(acc, [(tuple(tuple(x) for x in c["dag"]), tuple(c["fresh"]))])
         return [v for v in acc.violations if v["case"]["k"] == c["k"]]
